@@ -191,6 +191,25 @@ PROPS = {
                       "record is unchanged, except that a successful split/move signed by that address reduces its original vesting only; lifted to "
                       "whole histories. The real x/auth records are compared byte-for-byte before/after every generated message.",
     },
+    "C15": {
+        "title": "Signature registry: payload links are write-once, verification is sound",
+        "model": "Sig.v: publish, store_signature, storage_key, verify (hash and X.509 check as oracles)",
+        "runs": [{"kind": "sig", "profile": "", "n_quick": 240, "n_thorough": 8000, "per_shard": 15}],
+        "preds": ["C15."],
+        "rule": "sequences of 5-13 publish / store-signature / verify operations over 2 reference ids, 3 addresses and 6 real key pairs (4 ECDSA-P256, "
+                "2 RSA-2048, self-signed certificates generated by the harness); 65% start with publish+sign+verify of one record, followed by "
+                "single-field mutations (tampered signature, other certificate, wrong algorithm, not base64 / not PEM, malformed JSON, other address, "
+                "other or malformed reference id, re-publication under a present key, empty link); the module's message server and query run on the "
+                "real keeper; the model's hash and X.509 oracles are tables computed by the harness with Go's crypto directly; non-trivial = at least "
+                "one verification reported valid; distinct = distinct operation lists",
+        "partial": ["sha256/hex and the X.509 signature check are oracles (section variables); the cryptographic step itself is not proved"],
+        "level_text": "Coq theorems with hashing and the X.509 check as section variables: a published link stays unchanged under every later message "
+                      "sequence (write-once, any length); publication on a present key is refused; verification reports valid iff a signature object is "
+                      "stored under hash(addr:ref), a link under hash(ref), and the oracle accepts (stored certificate, stored algorithm, "
+                      "hash(addr:ref:link), stored signature), returning the stored fields unchanged; malformed requests are errors; under a "
+                      "collision-free hash another address / link changes the slot / payload. Real ECDSA and RSA signatures are verified through the "
+                      "module and compared with the model and an independent crypto/x509 oracle on every run.",
+    },
     "C17": {
         "title": "Genesis lineage of vesting accounts and vesting summaries are accurate",
         "model": "Vest.v: traces in send/split, summary; AccountsProofs.v: Derived",
